@@ -22,6 +22,7 @@ func init() { runners["C09"] = runC09 }
 func runC09(cases string, res *Result) {
 	c09RangeBounds(res)
 	c09NullOverOuterNames(res)
+	c09DefinedNullsUnderStrictVariables(res)
 	var firstKnown = map[string]*Finding{}
 	var knownSize = map[string]int{}
 	readCases(cases, func(c Case) {
